@@ -9,7 +9,7 @@ PROP = "C15"
 def parse_label(lab):
     m = re.match(r"(\w+)(?:\((.*)\))?", lab)
     act, args = m.group(1), [a.strip().strip('"') for a in (m.group(2) or "").split(",") if a.strip()]
-    if act in ("Start", "Cancel"):
+    if act in ("Start", "Cancel", "Crash"):
         return {"op": act, "c": "-", "v": 0}
     if act == "Set":
         return {"op": "Set", "c": args[0], "v": int(args[1])}
@@ -30,6 +30,8 @@ def gen(tier, rng, cov):
             s += any(x.startswith("Get") for x in w) and any(x.startswith("Set") for x in w)
             s += sum(1 for x in w if x.startswith("Reattach")) >= 2
             s += any(x.startswith("Cancel") for x in w)
+            # an ungraceful death (socket file left behind) followed by a reattach
+            s += 2 * any(x.startswith("Crash") and any(y.startswith("Reattach") for y in w[i + 1:]) for i, x in enumerate(w))
             return s
         good = [w for w in words if score(w) >= 2]
         n = {"quick": 16, "thorough": 300}[tier]
